@@ -76,7 +76,7 @@ def check_shapes(chk, item, which='C11'):
             if okk:
                 chk.ok()
                 pred = r.value.render(m) if hasattr(r.value, 'render') else r.value.v
-                jobs.append(['report', cat, spec]); meta.append((shape, pred))
+                jobs.append(['report', cat, spec]); meta.append((shape, pred, f.concretize(m)))
                 continue
             nat = chk.native.run([['report', cat, spec]])[0]
             text = unhex(nat[1]) if nat[0] == 'OK' else None
@@ -86,8 +86,12 @@ def check_shapes(chk, item, which='C11'):
                 chk.broken('%s report %r: engine says "%s" but the real report satisfies the oracle:\n%s' % (cat, shape, why, text))
             chk.violation('%s:report:%s' % (cat, role_of(cwhy)), '%s report for findings %r: %s' % (cat, conc, cwhy),
                           {'job': 'report', 'category': cat, 'findings': spec, 'observed': text, 'why': cwhy})
-    for (shape, pred), nat in zip(meta, chk.native.run(jobs)):
+    for (shape, pred, conc), nat in zip(meta, chk.native.run(jobs)):
         chk.validated += 1
+        if nat[0] == 'OK' and unhex(nat[1]) != pred and concrete_accept(unhex(nat[1]), cat, conc, sections, overview, headings)[0]:
+            # same findings, another order of sections / entries: the order is not part of this property (C13 decides it)
+            chk.extra_lists.setdefault('validated_up_to_order', []).append(str(shape))
+            continue
         if nat[0] != 'OK' or unhex(nat[1]) != pred:
             chk.broken('%s report %r: engine predicts a different text than the real generator\npredicted: %r\nreal: %r' % (
                 cat, shape, pred[:300], unhex(nat[1])[:300] if nat[0] == 'OK' else nat))
